@@ -266,11 +266,36 @@ func g8GenC40Block(r *Rand, emit func(string), useed string) {
 	if r.Chance(1, 10) && cur > 0 {
 		cur--
 	}
+	edge := false
+	if r.Chance(1, 4) {
+		// the edges of the certificate window; the early side signed with the un-evolved key
+		edge = true
+		if ocPeriod == 0 {
+			ocPeriod = 1 + uint64(r.Intn(300))
+		}
+		switch r.Intn(4) {
+		case 0:
+			cur, kesT = ocPeriod-1, 0
+		case 1:
+			cur, kesT = ocPeriod, 0
+		case 2:
+			cur, kesT = ocPeriod+1, 1
+		default:
+			cur, kesT = ocPeriod+63, 63
+		}
+	}
 	slot := cur*spk + uint64(r.Intn(int(spk)))
+	if r.Chance(1, 3) {
+		slot = cur*spk + spk - 1
+	}
 	if slot == 0 {
 		slot = 1
 	}
 	tam := "none"
+	if edge && r.Chance(2, 3) {
+		emit(fmt.Sprintf("blk %s %s %d %d %d %d %s", mode, useed, slot, spk, ocPeriod, kesT, tam))
+		return
+	}
 	switch r.Intn(6) {
 	case 0, 1:
 		tam = c40Tampers[r.Intn(len(c40Tampers))]
